@@ -10,7 +10,8 @@
    Unforgeability of HMAC is NOT proved: the theorems say that accepting anything else than the
    signed value REQUIRES a token carrying a full-length valid tag over a message never signed. *)
 From Coq Require Import ZArith NArith List Bool.
-Require Import Webob.Lib.Val Webob.Lib.PyStr Webob.Model.C16_signed Webob.Proofs.C16_signed.
+Require Import Webob.Lib.Val Webob.Lib.PyStr Webob.Model.C16_signed Webob.Proofs.C16_signed
+               Webob.Proofs.C16_b64alter Webob.Proofs.C16_examples.
 Import ListNotations.
 
 (* --- base64 layer: urlsafe_b64decode (urlsafe_b64encode bs) = bs for all octet strings --- *)
@@ -235,3 +236,74 @@ Theorem C16_profile_roundtrip :
             sp_get_value V mac dsize deser (sp_bind p (echo (sp_name p) x)) = Some (Ok (Some v)).
 Proof. exact profile_roundtrip. Qed.
 Print Assumptions C16_profile_roundtrip.
+
+(* ===== which alterations change the signed octets (concrete base64 layer) ===== *)
+
+(* what a token made of alphabet symbols means: undecodable when its length is 1 mod 4, otherwise the
+   bit-concatenation dec6 of its symbol values (low bits of an incomplete last quad dropped) *)
+Theorem C16_decoded_alphabet_token : forall t, Forall alpha t ->
+  decoded t = if (length t mod 4 =? 1)%nat then None else Some (dec6 (map sext t)).
+Proof. exact decoded_alpha. Qed.
+Print Assumptions C16_decoded_alphabet_token.
+
+(* substituting ANY symbol of an issued token by an octet outside the alphabet (other than '=')
+   is rejected unconditionally - for every key, mac and digest size *)
+Theorem C16_outside_symbol_rejected :
+  forall (V : Type) (mac : bytes -> bytes -> bytes) (dsize : nat) (ser : V -> bytes)
+         (deser : bytes -> res V) (key : bytes) (v : V) (i : nat) (x : N),
+    (i < length (signed_dumps V mac ser key v))%nat -> a2b x = None -> (x =? PAD)%N = false ->
+    signed_loads_b V mac dsize deser key (subst_at i x (signed_dumps V mac ser key v)) = ValueError.
+Proof. exact issued_outside_symbol_rejected. Qed.
+Print Assumptions C16_outside_symbol_rejected.
+
+(* substituting a symbol (not the last) by an alphabet symbol of another value changes the octets:
+   by C16_altered_token the result is then ValueError unless the new octets carry a forged tag.
+   (A symbol of the SAME value - '+' for '-', '/' for '_' - gives the identical octets.) *)
+Theorem C16_alphabet_symbol_changes_octets :
+  forall (V : Type) (mac : bytes -> bytes -> bytes) (ser : V -> bytes) (key : bytes) (v : V) (i : nat) (x : N),
+    (S i < length (signed_dumps V mac ser key v))%nat -> alpha x ->
+    sext x <> sext (nth i (signed_dumps V mac ser key v) 0%N) ->
+    decoded (subst_at i x (signed_dumps V mac ser key v)) <> decoded (signed_dumps V mac ser key v).
+Proof. exact issued_alphabet_symbol_changes_octets. Qed.
+Print Assumptions C16_alphabet_symbol_changes_octets.
+
+(* the last symbol: the octets change unless only the dropped low bits differ *)
+Theorem C16_last_symbol_changes_octets :
+  forall (V : Type) (mac : bytes -> bytes -> bytes) (ser : V -> bytes) (key : bytes) (v : V) (x : N),
+    let t := signed_dumps V mac ser key v in
+    let i := (length t - 1)%nat in
+    t <> [] -> alpha x -> ~ same_kept_bits (length t) (sext x) (sext (nth i t 0%N)) ->
+    decoded (subst_at i x t) <> decoded t.
+Proof. exact issued_last_symbol_changes_octets. Qed.
+Print Assumptions C16_last_symbol_changes_octets.
+
+(* every truncation, deletion, insertion or extension that keeps the token inside the alphabet but
+   changes its length changes the octets (or makes it undecodable) *)
+Theorem C16_other_length_changes_octets :
+  forall (V : Type) (mac : bytes -> bytes -> bytes) (ser : V -> bytes) (key : bytes) (v : V) (t' : bytes),
+    Forall alpha t' -> length t' <> length (signed_dumps V mac ser key v) ->
+    decoded t' <> decoded (signed_dumps V mac ser key v).
+Proof. exact issued_other_length_changes_octets. Qed.
+Print Assumptions C16_other_length_changes_octets.
+
+(* --- the hypotheses of the conditional theorems are satisfiable --- *)
+(* C16_integrity_under_unforgeability: the token issued for v = 2 under the toy mac *)
+Example C16_unforgeability_hyp_satisfiable :
+  forall c, c <> toy_ser 2 ->
+    decoded (signed_dumps nat toy_mac toy_ser [1; 2; 3]%N 2%nat) <> Some (toy_mac [1; 2; 3]%N c ++ c).
+Proof. exact toy_unforgeable_instance. Qed.
+
+(* C16_profile_roundtrip: a user agent echoing what stands between "name=" and the first ';' *)
+Example C16_echo_hyp_satisfiable :
+  forall name dom tok, (fun _ : str => True) name -> Forall (fun c => is_b64url c = true) tok ->
+    toy_echo name (mk_cookie_plain name dom tok) = JarValue tok.
+Proof. intros name dom tok _. apply toy_echo_plain. Qed.
+
+(* C16_other_key_rejected: two keys of different length give different toy tags *)
+Example C16_other_key_hyp_satisfiable : toy_mac [1]%N (toy_ser 2) <> toy_mac [1; 2]%N (toy_ser 2).
+Proof. discriminate. Qed.
+
+(* C16_limit / C16_roundtrip on concrete data *)
+Example C16_concrete_roundtrip :
+  signed_loads nat toy_mac 1 toy_deser [7; 7]%N (signed_dumps nat toy_mac toy_ser [7; 7]%N 5%nat) = Ok 5%nat.
+Proof. vm_compute. reflexivity. Qed.
